@@ -56,11 +56,16 @@ def _run_harness(lines, binary, timeout_per_case=10.0):
     return out
 
 
+FEATURES = None      # set by a check that needs a harness built with a cargo feature
+
+
 def run_cases(lines, release=False, want_model=True, want_impl=True, nshards=None):
     """lines: list of case lines (with trailing newline).  Returns {id: {tag: [fields...]}}"""
     nshards = nshards or max(1, min(NPROC, len(lines) // 50 + 1))
     shards = [lines[i::nshards] for i in range(nshards)]
     binary = HARNESS_RELEASE if release else HARNESS_DEBUG
+    if FEATURES:
+        binary = binary.replace(os.path.join(BUILD, "cargo"), os.path.join(BUILD, "cargo-" + FEATURES))
     res = {}
     with ThreadPoolExecutor(max_workers=2 * nshards) as ex:
         futs = []
